@@ -41,4 +41,17 @@ CLAIMS = {
     },
 }
 
+CLAIMS['C14'] = {
+    'text': 'Decides writer/reader agreement for all to_dict/from_dict pairs (Bivariate, GaussianMultivariate, VineCopula, '
+            'Tree, Edge explicit key tables; Univariate/ScipyModel/GaussianKDE params pass-through): every written key is '
+            'read, every read key written, key k written from self.A is restored into A, writer and reader transforms are '
+            'inverse, every attribute the query/serialisation closure reads is restored, every constructor option that '
+            'shapes the rebuilt model is serialised, the recorded type is the class to rebuild and enum factories are '
+            'exhaustive, save/load use inverse formats, serialisation edits neither the model nor the caller\'s dict, no '
+            'unpicklable callable is stored. Two genuine defects are recorded (F3a, F3b: KDE bw_method/weights not '
+            'serialised). Bitwise equality of outputs and JSON-encodability of NumPy scalars are not decided.',
+    'note': NOTE,
+    'technique': 'reader/writer key-table extraction and sibling agreement; attribute effect closures; alias analysis',
+}
+
 NOT_APPLICABLE = {}
